@@ -176,6 +176,136 @@ theorem matchDigitsX_local : MLocal (matchDigitsX false) :=
   ⟨fun b e h => matchDigitsX_le b false e h, fun b e k h hk => matchDigitsX_take b false e k h hk,
    fun b c e h => matchDigitsX_app b c false e h⟩
 
+/-- a start position whose match is still incomplete excludes a complete match at a later start inside the buffer:
+    what makes the LEFTMOST match stable when more bytes arrive -/
+def NoOverlap (m : Bytes → Option Nat) : Prop :=
+  ∀ x xs c e, m (x :: xs) = none → m (x :: (xs ++ c)) = some e → searchWith m xs = none
+
+theorem searchWith_app {m : Bytes → Option Nat} (h : MLocal m) (hn : NoOverlap m) :
+    ∀ b c e, searchWith m b = some e → searchWith m (b ++ c) = some e := by
+  intro b
+  induction b with
+  | nil =>
+    intro c e he
+    have h0 : m [] = some e := he
+    have := h.app [] c e h0
+    cases c with
+    | nil => exact he
+    | cons y ys =>
+      simp only [List.nil_append] at this ⊢
+      simp [searchWith, this]
+  | cons x xs ih =>
+    intro c e he
+    simp only [searchWith] at he
+    split at he
+    · rename_i e' hm
+      cases he
+      have := h.app _ c _ hm
+      simp only [List.cons_append] at this ⊢
+      simp [searchWith, this]
+    · rename_i hnone
+      cases hs : searchWith m xs with
+      | none => simp [hs] at he
+      | some e' =>
+        simp [hs] at he; subst he
+        have hn' : m (x :: (xs ++ c)) = none := by
+          cases hq : m (x :: (xs ++ c)) with
+          | none => rfl
+          | some e2 =>
+            have := hn x xs c e2 hnone hq
+            rw [hs] at this; cases this
+        simp only [List.cons_append]
+        simp [searchWith, hn', ih c e' hs]
+
+theorem digits_of_partial : ∀ (l c : Bytes) (seen : Bool) (e : Nat), matchDigitsX seen l = none →
+    matchDigitsX seen (l ++ c) = some e → l.all isDigit = true := by
+  intro l
+  induction l with
+  | nil => intro c seen e _ _; rfl
+  | cons a as ih =>
+    intro c seen e h1 h2
+    simp only [List.cons_append] at h2
+    simp only [matchDigitsX] at h1 h2
+    split at h1
+    · rename_i hd
+      rw [if_pos hd] at h2
+      cases hr : matchDigitsX true as with
+      | some e' => simp [hr] at h1
+      | none =>
+        cases hr2 : matchDigitsX true (as ++ c) with
+        | none => simp [hr2] at h2
+        | some e2 => simp [List.all_cons, hd, ih c true e2 hr hr2]
+    · rename_i hd
+      rw [if_neg hd] at h2
+      split at h1
+      · simp at h1
+      · rename_i hx; rw [if_neg hx] at h2; simp at h2
+
+theorem digits_no_match : ∀ (l : Bytes), l.all isDigit = true → ∀ seen, matchDigitsX seen l = none := by
+  intro l
+  induction l with
+  | nil => intro _ seen; rfl
+  | cons a as ih =>
+    intro h seen
+    simp only [List.all_cons, Bool.and_eq_true] at h
+    simp [matchDigitsX, h.1, ih h.2 true]
+
+theorem digits_no_search : ∀ (l : Bytes), l.all isDigit = true → searchWith (matchDigitsX false) l = none := by
+  intro l
+  induction l with
+  | nil => intro _; rfl
+  | cons a as ih =>
+    intro h
+    have h' := h
+    simp only [List.all_cons, Bool.and_eq_true] at h'
+    simp [searchWith, digits_no_match (a :: as) h false, ih h'.2]
+
+theorem matchDigitsX_noOverlap : NoOverlap (matchDigitsX false) := by
+  intro x xs c e h1 h2
+  have := digits_of_partial (x :: xs) c false e h1 (by simpa using h2)
+  simp only [List.all_cons, Bool.and_eq_true] at this
+  exact digits_no_search xs this.2
+
+theorem matchCrlf2_one (b : Nat) : matchCrlf2 [b] = none := by
+  unfold matchCrlf2; split <;> simp_all
+
+theorem matchCrlf2_two (a b : Nat) (e : Nat) (h : matchCrlf2 [a, b] = some e) : a = 10 ∧ b = 10 := by
+  unfold matchCrlf2 at h; split at h <;> simp_all
+
+theorem matchCrlf2_noOverlap : NoOverlap matchCrlf2 := by
+  intro x xs c e h1 h2
+  have hle : e ≤ 4 := by
+    unfold matchCrlf2 at h2; split at h2 <;> simp at h2 <;> omega
+  have hgt : (x :: xs).length < e := by
+    apply Nat.lt_of_not_le
+    intro hge
+    have := matchCrlf2_local.take _ _ (x :: xs).length h2 hge
+    rw [show (x :: (xs ++ c)).take (x :: xs).length = x :: xs by simp] at this
+    rw [h1] at this; cases this
+  match xs, h1, h2, hgt with
+  | [], _, _, _ => rfl
+  | [a], _, _, _ => simp [searchWith, matchCrlf2_one]; rfl
+  | [a, b], h1, h2, _ =>
+    have hab : matchCrlf2 [a, b] = none := by
+      cases hq : matchCrlf2 [a, b] with
+      | none => rfl
+      | some e' =>
+        exfalso
+        obtain ⟨rfl, rfl⟩ := matchCrlf2_two a b e' hq
+        simp only [List.cons_append, List.nil_append] at h2
+        unfold matchCrlf2 at h1 h2
+        split at h1 <;> split at h2 <;> simp_all
+    simp [searchWith, hab, matchCrlf2_one]; rfl
+  | a :: b :: d :: rest, _, _, hgt => simp at hgt; omega
+
+/-- the engine used by the tie is prefix-stable: a first match stays the first match when more bytes arrive -/
+theorem stdR_stable : RStable stdR := by
+  intro id b c e h
+  match id, h with
+  | 0, h => exact searchWith_app matchCrlf2_local matchCrlf2_noOverlap b c e h
+  | 1, h => exact searchWith_app matchDigitsX_local matchDigitsX_noOverlap b c e h
+  | n + 2, h => simp [stdR] at h
+
 /-- the engine used by the tie satisfies the locality hypothesis of the contract theorems -/
 theorem stdR_local : RLocal stdR := by
   intro id b e h
